@@ -55,7 +55,7 @@ func vfC20CheckWeights(w []float64, L int) {
 // H_C20_weights_dirichlet: BuildWeightsDirichlet: one strictly positive finite weight per site, summing to the alignment length.
 // bounds: L in {3,4}; every outcome of the draws with at most 6 draws of math/rand per path (L needed; the rejection loop "u <= 1e-7" cut after 6-L extra draws in total: longer rejection runs repeat the same body on fresh draws)
 // outside: L > 4 and more rejections (thorough twin); IEEE rounding is outside the claim: floats are exact reals; ln uninterpreted (ln u < 0 on (0,1))
-//verif: maxrand=6 maxsteps=200000
+//verif: maxrand=6 maxsteps=200000 timeout=60000
 func H_C20_weights_dirichlet() {
 	L := nondetRange(3, 4)
 	vfC20CheckWeights(BuildWeightsDirichlet(vfC20Align(L)), L)
@@ -64,7 +64,7 @@ func H_C20_weights_dirichlet() {
 // H_C20_weights_dirichlet_deep: as H_C20_weights_dirichlet for L = 3..5 with at most 8 draws.
 // bounds: L in {3,4,5}; at most 8 draws per path
 // outside: IEEE rounding is outside the claim: floats are exact reals
-//verif: tier=thorough maxrand=8 maxsteps=200000
+//verif: tier=thorough maxrand=8 maxsteps=200000 timeout=60000
 func H_C20_weights_dirichlet_deep() {
 	L := nondetRange(3, 5)
 	vfC20CheckWeights(BuildWeightsDirichlet(vfC20Align(L)), L)
@@ -73,7 +73,7 @@ func H_C20_weights_dirichlet_deep() {
 // H_C20_weights_gamma: BuildWeightsGamma (gamma variates fitted to the binomial of the bootstrap, shape L/(L-1) > 1: Cheng's sampler): one strictly positive finite weight per site, summing to the alignment length.
 // bounds: L = 3, at most 6 draws of math/rand per path (6 needed: every variate accepted at its first proposal, through either acceptance test; a rejected proposal repeats the same body on fresh draws: thorough twin and, for the sampler alone, stats H_C20_gamma)
 // outside: L = 4 (8 draws: the exploration does not finish, measured 16 min, 6 x solver unknown) and rejections (thorough twin); IEEE rounding is outside the claim: floats are exact reals; ln/exp/sqrt uninterpreted
-//verif: maxrand=6 maxsteps=200000
+//verif: maxrand=6 maxsteps=200000 timeout=120000
 func H_C20_weights_gamma() {
 	vfC20CheckWeights(BuildWeightsGamma(vfC20Align(3)), 3)
 }
